@@ -258,6 +258,7 @@ def run_tsan(ctx, src, events, nprim, make_assignment, report):
         raise vlib.BuildError("TSan harness compile failed", out[-4000:])
     supp = os.path.join(HERE, "tsan.supp")
     nruns = 0
+    seen_sigs = {}
     rng = ctx.rng
     for nstreams in [2, 3, 4, 8, 16]:
         for rep in range(3):
@@ -280,13 +281,26 @@ def run_tsan(ctx, src, events, nprim, make_assignment, report):
             label = {"threads": nstreams, "slots": SLOTS, "yield_seed": yseed, "assignment": assignment_text(asg).splitlines(),
                      "command": "TSAN_OPTIONS=... %s conc %d %d %d < assignment" % (exe, nstreams, SLOTS, yseed)}
             if "ThreadSanitizer" in rep_txt:
-                first = rep_txt.split("==================")[1] if "==================" in rep_txt else rep_txt[:4000]
-                # signature: the first celeritas frame of the racing access
-                m = re.search(r"#\d+ (celeritas::[\w:<>~]+)", first)
-                sig = "tsan:" + (m.group(1) if m else "unknown")
-                report("data-race", "ThreadSanitizer report with %d threads: %s" % (nstreams, sig),
-                       dict(label, report=first[:6000], reports_total=rep_txt.count("WARNING: ThreadSanitizer")), signature=sig)
+                blocks = [b_ for b_ in rep_txt.split("==================") if "WARNING: ThreadSanitizer" in b_]
+                for blk in blocks or [rep_txt[:6000]]:
+                    # signature: the first non-template celeritas function in the stack of the racing access
+                    sig = "tsan:unknown"
+                    for m in re.finditer(r"#\d+ ((?:non-virtual thunk to )?celeritas::[^\n]*?) /", blk):
+                        fn = m.group(1).split("(")[0]
+                        if "<" not in fn and "thunk" not in fn:
+                            parts = fn.strip().split("::")
+                            # class-level signature: one unsynchronised publication shows up in
+                            # several member functions of the same object
+                            sig = "tsan:" + "::".join(parts[:-1] if len(parts) > 2 else parts)
+                            break
+                    if sig in seen_sigs:
+                        seen_sigs[sig] += 1
+                        continue
+                    seen_sigs[sig] = 1
+                    report("data-race", "ThreadSanitizer report with %d threads: %s" % (nstreams, sig),
+                           dict(label, report=blk[:6000], reports_in_this_run=len(blocks)), signature=sig)
             elif rc != 0:
                 report("concurrent-run-failed", "TSan-instrumented concurrent run failed rc=%d" % rc, dict(label, output_tail=out[-1500:]))
-    ctx.log("ThreadSanitizer: %d concurrent runs" % nruns)
+    ctx.log("ThreadSanitizer: %d concurrent runs; distinct reports: %r" % (nruns, seen_sigs))
+    ctx.coverage["tsan_report_signatures"] = seen_sigs
     return nruns
